@@ -123,23 +123,7 @@ func New(
 	s.t.ControlCharacterCallback = func(key rune) {
 		switch key {
 		case 0x0F: /* ^O, silence output for a bit. */
-			verifPause("ctrl-o")
-			s.wL.Lock()
-			defer s.wL.Unlock()
-			/* Don't double-pause. */
-			if s.silenced {
-				go s.Logf(ColorRed, false, "Already muted")
-				return
-			}
-			/* Pause output for a bit. */
-			s.silenced = true
-			s.resetSilenceTimer(true)
-			go s.Logf(
-				ColorRed,
-				false,
-				"Muting until we get %s of calm",
-				PlainWritePause,
-			)
+			go s.mute()
 		case 0x09: /* ^I, paste from file. */
 			go s.insert()
 		case 0x0a: /* ^J, like ^I but just locally. */
@@ -189,6 +173,30 @@ func New(
 	}
 
 	return &s, cleanup, nil
+}
+
+// mute silences plain output for a bit, as on Ctrl+O.  It mustn't be called
+// by the terminal's key-handling callback directly: that runs with the
+// terminal's own lock held, while writers take s.wL first and then write to
+// the terminal.
+func (s *Shell) mute() {
+	verifPause("ctrl-o")
+	s.wL.Lock()
+	defer s.wL.Unlock()
+	/* Don't double-pause. */
+	if s.silenced {
+		go s.Logf(ColorRed, false, "Already muted")
+		return
+	}
+	/* Pause output for a bit. */
+	s.silenced = true
+	s.resetSilenceTimer(true)
+	go s.Logf(
+		ColorRed,
+		false,
+		"Muting until we get %s of calm",
+		PlainWritePause,
+	)
 }
 
 // Do proxies between the channels with which the shell was made and stdio as
